@@ -21,6 +21,11 @@ Sum(x, y) == [i \in 1..Len(x) |-> (x[i] + y[i] + Carry(x, y, i - 1)) % B]
 \* x + y = 2^(16*Len) exactly
 SumIsExactlyTop(x, y) == AddOverflows(x, y) /\ LIsZero(Sum(x, y))
 
+\* x - y for x >= y (borrow chain)
+RECURSIVE Borrow(_, _, _)
+Borrow(x, y, i) == IF i = 0 THEN 0 ELSE IF x[i] - y[i] - Borrow(x, y, i - 1) < 0 THEN 1 ELSE 0
+Diff(x, y) == [i \in 1..Len(x) |-> (x[i] - y[i] - Borrow(x, y, i - 1) + B) % B]
+
 RECURSIVE LeqFrom(_, _, _)
 LeqFrom(x, y, i) == IF i = 0 THEN TRUE
                     ELSE IF x[i] < y[i] THEN TRUE ELSE IF x[i] > y[i] THEN FALSE ELSE LeqFrom(x, y, i - 1)
